@@ -274,4 +274,83 @@ func runLoss(tier string, seed int64, shard, nshard int, r *res.Result) {
 		}
 	}
 
+	// one loss filter entered by several goroutines at the same time (a router's forwarding loop and a sender can both
+	// reach a NIC): short rounds in which every sender hands in two datagrams; when all senders have returned, chance 0
+	// must have forwarded every datagram of the round (nothing may be left behind inside the filter until a later
+	// arrival), chance 100 none; every forwarded datagram was handed in, at most once, in its sender's order
+	for _, ch := range []int{0, 0, 100, 40} {
+		var mu sync.Mutex
+		var got []uint64
+		sink := &vnet.VerifNIC{OnChunk: func(c vnet.Chunk) {
+			mu.Lock()
+			got = append(got, vn.PayloadID(c.UserData()))
+			mu.Unlock()
+		}}
+		f, err := vnet.NewLossFilter(sink, ch)
+		if err != nil {
+			r.Violate("loss:ctor", err.Error(), nil)
+			continue
+		}
+		const senders, per = 4, 2
+		rounds := 15000
+		sent := 0
+		bad := ""
+		start := make([]chan int, senders)
+		done := make(chan struct{}, senders)
+		for sidx := range start {
+			start[sidx] = make(chan int)
+			go func(sidx int) {
+				for round := range start[sidx] {
+					for k := 0; k < per; k++ {
+						id := uint64(sidx)<<40 | uint64(round*per+k+1)
+						vnet.VerifInject(f, vnet.VerifNewChunkUDP(vn.UDP("10.0.0.1", 1000+sidx), vn.UDP("10.0.0.2", 2000), vn.Payload(id, 8)))
+					}
+					done <- struct{}{}
+				}
+			}(sidx)
+		}
+		for round := 0; round < rounds && bad == ""; round++ {
+			for sidx := range start {
+				start[sidx] <- round
+			}
+			for range start {
+				<-done
+			}
+			sent += senders * per
+			mu.Lock()
+			n := len(got)
+			mu.Unlock()
+			switch {
+			case ch <= 0 && n != sent:
+				bad = fmt.Sprintf("chance %d, %d goroutines entering one filter: after round %d every sender has returned, %d datagrams were handed in and %d forwarded", ch, senders, round, sent, n)
+			case ch >= 100 && n != 0:
+				bad = fmt.Sprintf("chance %d forwarded %d datagrams", ch, n)
+			}
+		}
+		for sidx := range start {
+			close(start[sidx])
+		}
+		r.Eval(1)
+		r.Count("shared_filter_rounds", int64(rounds))
+		mu.Lock()
+		last := map[uint64]uint64{}
+		for _, id := range got {
+			sidx, seq := id>>40, id&(1<<40-1)
+			if seq <= last[sidx] && bad == "" {
+				bad = fmt.Sprintf("chance %d: sender %d's datagram %d forwarded after %d (reordered or duplicated)", ch, sidx, seq, last[sidx])
+			}
+			last[sidx] = seq
+		}
+		if ch > 0 && ch < 100 && bad == "" {
+			p := float64(ch) / 100
+			dropped := sent - len(got)
+			if tol := 6*math.Sqrt(float64(sent)*p*(1-p)) + 1; math.Abs(float64(dropped)-float64(sent)*p) > tol {
+				bad = fmt.Sprintf("chance %d dropped %d of %d (expected %.0f +- %.0f) with %d goroutines entering the filter", ch, dropped, sent, float64(sent)*p, tol, senders)
+			}
+		}
+		mu.Unlock()
+		if bad != "" {
+			r.Violate("loss:shared", bad, map[string]interface{}{"phase": "one filter, several goroutines", "chance": ch})
+		}
+	}
 }
